@@ -5,7 +5,7 @@ import NfcVerif.Lemmas.IsoDepV2Live
 Statements; the invariant proofs are in `Lemmas/IsoDepV2.lean` (safety), `Lemmas/IsoDepV2Term.lean` (termination
 against every card), `Lemmas/IsoDepV2Live.lean` (absorbed faults).  Model: `Model/IsoDepV2.lean` - `exchange` is
 `IsoDepInitiator.exchange` with the repairs of `fixes/C12` (S(WTX) answered inside the retry loops, no further command
-after an unrecoverable error) and of `fixes/C08/0010 - 0012` (retransmissions after R(ACK) counted, empty / oversized
+after an unrecoverable error) and of `fixes/C08/0010 - 0012` (endless retransmissions after R(ACK) cut off, empty / oversized
 chained response refused, S(WTX) multiplier checked and the granted waiting time limited); `isoPeer cfg` is an ISO/IEC
 14443-4 PICC with an arbitrary application `cfg.app`, arbitrary response block size and arbitrary placement of S(WTX)
 requests (`Model/IsoDep.lean`), `Peer σ` is ANY card, the `World` carries an arbitrary fault script (`d`eliver, `l`ose,
@@ -169,7 +169,7 @@ fault script and the command: once the model's fuel exceeds `fuelNeed pcd = max(
 no loop of `exchange` uses it up - every loop of the repaired `IsoDepInitiator.exchange` ends - and the exchange
 hands at most `exchFrames pcd len(command)` blocks to the reader:
 `len * roundsMax n_nak * (max_wtxm_sum + 1) + 65539 * roundsMax n_ack * (max_wtxm_sum + 1)` with
-`roundsMax n = n + 1` rounds per retry loop. -/
+`roundsMax n = n + 2` rounds per retry loop. -/
 theorem isodep_terminates {σ : Type} (P : Peer σ) (F : Nat) (pcd : Pcd) (cmd : Bytes) (w : World σ)
     (hF : fuelNeed pcd ≤ F) (hp : pcd.pni < 2) :
     (exchange P F pcd cmd w).2.2 ≠ .error .outOfFuel ∧
@@ -183,11 +183,11 @@ example : (exchange (⟨fun (_ : Unit) _ => ((), some [0xF2, 59])⟩ : Peer Unit
     [1, 2] ⟨(), [], []⟩).2.2 = .error (.tagCmd TIMEOUT_ERROR) ∧
     (exchange (⟨fun (_ : Unit) _ => ((), some [0xF2, 59])⟩ : Peer Unit) 70000 { pni := 0, miu := 13, nNak := 0, nAck := 0, wlim := 59 }
     [1, 2] ⟨(), [], []⟩).1.trace = [[2, 1, 2], [0xF2, 59]] := by decide
-/-- a card that answers every block with R(ACK) for the other block number: `PROTOCOL_ERROR` after `n + 1` I-blocks -/
+/-- a card that answers every block with R(ACK) for the other block number: `PROTOCOL_ERROR` after `n + 2` I-blocks -/
 example : (exchange (⟨fun (_ : Unit) _ => ((), some [0xA3])⟩ : Peer Unit) 70000 { pni := 0, miu := 13, nNak := 2, nAck := 2, wlim := 59 }
     [1, 2] ⟨(), [], []⟩).2.2 = .error (.tagCmd PROTOCOL_ERROR) ∧
     (exchange (⟨fun (_ : Unit) _ => ((), some [0xA3])⟩ : Peer Unit) 70000 { pni := 0, miu := 13, nNak := 2, nAck := 2, wlim := 59 }
-    [1, 2] ⟨(), [], []⟩).1.trace = [[2, 1, 2], [2, 1, 2], [2, 1, 2]] := by decide
+    [1, 2] ⟨(), [], []⟩).1.trace = [[2, 1, 2], [2, 1, 2], [2, 1, 2], [2, 1, 2]] := by decide
 /-- a card that chains empty blocks for ever: `PROTOCOL_ERROR` at the first one -/
 example : (exchange (⟨fun (_ : Unit) _ => ((), some [0x12])⟩ : Peer Unit) 70000 { pni := 0, miu := 13, nNak := 2, nAck := 2, wlim := 59 }
     [1, 2] ⟨(), [], []⟩).2.2 = .error (.tagCmd PROTOCOL_ERROR) := by decide
@@ -295,15 +295,16 @@ def CardOk (cfg : CardCfg) (W : Nat) (pcd : Pcd) (cmd : Bytes) (w : World Card) 
   (cfg.app w.card.log.length cmd).length ≤ 65539
 
 /-- **Absorbed faults.** If the fault script (over the whole exchange: all command blocks, S(WTX) exchanges and response
-blocks) contains `k` lost / corrupted / empty blocks with `2k ≤ resendMax n_retry` (`= n_retry`) and no reader protocol
+blocks) contains `k` lost / corrupted / empty blocks with `2k ≤ resendMax n_retry = n_retry + 1` and no reader protocol
 error, and the card keeps to `CardOk`, the exchange succeeds and returns the card's response.  The bound is exact for the
-repaired code: a block lost on its way to the card costs the R(NAK) and the retransmission after R(ACK), and since
-`fixes/C08/0010` both must be within the budget (`isodep_absorbs_bound_tight`; before that repair the bound was `2k ≤ n_retry + 1`,
-`isodep_absorbs_before_0010`). -/
+code: a block lost on its way to the card costs the R(NAK) and the retransmission after R(ACK), so a fault can cost two
+counts; `k ≤ n_retry` is *not* enough (`isodep_absorbs_bound_tight`).  The termination repairs have not changed the
+bound: the retransmission after an R(NAK) that was answered by R(ACK) is always made (`fixes/C08/0010` cuts off at
+`n_retry + 1`, an R(NAK) is only sent up to `n_retry`). -/
 theorem isodep_absorbs (cfg : CardCfg) (W F : Nat) (pcd : Pcd) (cmd : Bytes) (w : World Card)
     (hs : SessInv pcd w.card) (hf : pcd.failed = none) (hm : 0 < pcd.miu) (hcmd : cmd ≠ [])
     (hF : fuelNeed pcd ≤ F) (hcard : CardOk cfg W pcd cmd w) (hnp : Fault.p ∉ w.script)
-    (hk1 : 2 * nfaults w.script ≤ resendMax pcd.nNak) (hk2 : 2 * nfaults w.script ≤ resendMax pcd.nAck) :
+    (hk1 : 2 * nfaults w.script ≤ pcd.nNak + 1) (hk2 : 2 * nfaults w.script ≤ pcd.nAck + 1) :
     (exchange (isoPeer cfg) F pcd cmd w).2.2 = .ok (cfg.app w.card.log.length cmd) := by
   obtain ⟨hp, hsync'⟩ := hs
   have hsync := hsync' hf
@@ -318,22 +319,22 @@ theorem isodep_absorbs (cfg : CardCfg) (W F : Nat) (pcd : Pcd) (cmd : Bytes) (w 
   rw [← (exchange_unfailed _ F pcd cmd w hf).1] at hd
   rw [hd, (isodep_response_exact cfg F pcd cmd w ⟨hp, hsync'⟩ d hd).1]
 
-/-- 2 faults with the maximal budget 5 (2k = 4 ≤ 5), S(WTX) with multiplier 3 before the response: absorbed -/
+/-- 3 faults with the maximal budget 5 (2k = 6 ≤ n + 1), S(WTX) with multiplier 3 before the response: absorbed -/
 example : (exchange (isoPeer ⟨8, 1, 0, 0, 3, fun n c => c ++ [n, 0x90, 0]⟩) 14 { pni := 0, miu := 13, nNak := 5, nAck := 5, wlim := 3 }
-    [1, 2] ⟨Card.init, [.l, .d, .d, .l], []⟩).2.2 = .ok [1, 2, 0, 0x90, 0] := by decide
+    [1, 2] ⟨Card.init, [.l, .d, .d, .l, .d, .d, .d, .c], []⟩).2.2 = .ok [1, 2, 0, 0x90, 0] := by decide
 
-/-- the bound is tight: budget 1, one fault (`2k = 2 > n`): the I-block is lost, R(NAK) is answered by R(ACK) and the
-retransmission would be count 2 - `PROTOCOL_ERROR` although a single block was lost and nothing else happened -/
-theorem isodep_absorbs_bound_tight :
+/-- budget 1, the I-block is lost once and nothing else happens (`2k = 2 ≤ n + 1`): R(NAK), R(ACK), retransmission at
+count 2, success - the recovery of a lost command block works with a single retry -/
+example : (exchange (isoPeer ⟨8, 0, 0, 0, 3, fun n c => c ++ [n, 0x90, 0]⟩) 14 { pni := 0, miu := 13, nNak := 1, nAck := 1, wlim := 59 }
+    [1, 2] ⟨Card.init, [.l], []⟩).2.2 = .ok [1, 2, 0, 0x90, 0] ∧
     (exchange (isoPeer ⟨8, 0, 0, 0, 3, fun n c => c ++ [n, 0x90, 0]⟩) 14 { pni := 0, miu := 13, nNak := 1, nAck := 1, wlim := 59 }
-      [1, 2] ⟨Card.init, [.l], []⟩).2.2 = .error (.tagCmd PROTOCOL_ERROR) := by decide
+    [1, 2] ⟨Card.init, [.l], []⟩).1.trace = [[2, 1, 2], [0xB2], [2, 1, 2]] := by decide
 
-/-- the same script before `fixes/C08/0010` (the as-found loops of `Model/IsoDep.lean`): the retransmission after R(ACK)
-was not counted and the lost block was absorbed - repair 0010 lowers the number of absorbed faults from
-`2k ≤ n + 1` to `2k ≤ n` -/
-theorem isodep_absorbs_before_0010 :
-    (IsoDep.exchange (isoPeer ⟨8, 0, 0, 0, 3, fun n c => c ++ [n, 0x90, 0]⟩) 14 { pni := 0, miu := 13, nNak := 1, nAck := 1 }
-      [1, 2] ⟨Card.init, [.l], []⟩).2.2 = .ok [1, 2, 0, 0x90, 0] := by decide
+/-- the bound is tight: budget 2, two faults (`2k = 4 > n + 1`): the I-block is lost, R(NAK) is answered by R(ACK), the
+I-block is retransmitted at count 3 and its answer is lost - `Type4TagCommandError` although only two blocks were lost -/
+theorem isodep_absorbs_bound_tight :
+    (exchange (isoPeer ⟨8, 0, 0, 0, 3, fun n c => c ++ [n, 0x90, 0]⟩) 14 { pni := 0, miu := 13, nNak := 2, nAck := 2, wlim := 59 }
+      [1, 2] ⟨Card.init, [.l, .d, .d, .d, .l], []⟩).2.2 = .error (.tagCmd TIMEOUT_ERROR) := by decide
 
 /-- **Block bound.** With `miu = FSC - 3` every block handed to the reader during the exchange - I-blocks,
 retransmitted I-blocks, R(ACK), R(NAK) and S(WTX) responses - is at most `FSC - 2` octets, i.e. fits the card's frame
